@@ -40,7 +40,7 @@ func collectOps(code []ds.VerifOp, set map[int]bool) {
 }
 
 func cfgFromFlags(f []bool) vmCfg {
-	c := vmCfg{}
+	c := vmCfg{OpLimit: 200000}
 	if len(f) >= 7 {
 		c.WoD, c.CoC, c.Fate, c.DC, c.NoBitwise, c.NoStmts, c.NoNDice = f[0], f[1], f[2], f[3], f[4], f[5], f[6]
 	}
